@@ -242,9 +242,34 @@ def rule_r3(p, res):
             elif isinstance(st, ast.Return):
                 return classify(st)
             else:
-                raise AnalysisError("C19.R3: unexpected statement in __getitem__: %s" % norm(st)[:40])
+                extra.append(st)
         return None
 
+    extra = []
+    walks = []
+    for n in walk_own(f.node):
+        its = [gn.iter for gn in n.generators] if isinstance(n, (ast.ListComp, ast.SetComp, ast.GeneratorExp, ast.DictComp)) else ([n.iter] if isinstance(n, ast.For) else [])
+        if any(isinstance(x, ast.Name) and x.id == idx for x in its):
+            walks.append(n)
+    if len(walks) > 1:
+        r.violation(f, walks[0], "__getitem__ walks its index %d times (`%s` ...): a one-shot iterable of indices (generator, reversed(), map()) is exhausted by the first pass and "
+                    "the selection made by the second is silently empty" % (len(walks), norm(walks[0])[:50]))
+        return
+    for kind, facts in INDEX_KINDS.items():
+        run(f.node.body, facts)
+    # statements besides the dispatch: none may walk the index, which may be a one-shot iterable (generator, reversed(), map())
+    walkers = []
+    for st in extra:
+        for n in ast.walk(st):
+            its = [gn.iter for gn in n.generators] if isinstance(n, (ast.ListComp, ast.SetComp, ast.GeneratorExp, ast.DictComp)) else ([n.iter] if isinstance(n, ast.For) else [])
+            its += [a_ for a_ in n.args] if isinstance(n, ast.Call) and (dotted(n.func) or "") in ("list", "tuple", "len", "sorted", "max", "min", "sum", "np.asarray", "np.array") else []
+            if any(isinstance(x, ast.Name) and x.id == idx for x in its):
+                walkers.append(st)
+    if walkers:
+        r.violation(f, walkers[0], "__getitem__ walks its index (`%s`) before selecting with it: a one-shot iterable of indices (generator, reversed(), map()) is exhausted by the first pass and "
+                    "the selection is silently empty" % norm(walkers[0])[:60])
+    elif extra:
+        raise AnalysisError("C19.R3: unexpected statement in __getitem__: %s" % norm(extra[0])[:40])
     for kind, facts in INDEX_KINDS.items():
         r.instance("__getitem__[%s]" % kind)
         got = run(f.node.body, facts)
@@ -421,4 +446,9 @@ WITNESSES += [
 WITNESSES += [
     Witness("C19.W11", "menpo/base.py", "LazyList.__getitem__", "def __getitem__(self, slice_):", "def __getitem__(self, slice_):\n    if isinstance(slice_, range):\n        slice_ = slice(slice_.start, slice_.stop, slice_.step)",
             rule="C19.R3", construct="LazyList.__getitem__", note="seeded change R4-C19-A"),
+]
+
+WITNESSES += [
+    Witness("C19.W12", "menpo/io/input/video.py", "FFMpegVideoReader._read_one_frame", "self.index += 1", "if self.normalize:\n        self.index += 1", rule="C19.G9", construct="_read_one_frame",
+            note="seeded change R5-C19-C (generic: state update skipped on one path)"),
 ]
